@@ -65,6 +65,9 @@ type C08Detail struct {
 
 var c08Tags = []string{"valid", "a", "b", "A", "wechatMiniProgramV1", "wechatMiniProgramV2"}
 
+// the tag names calls ask for: those above and the empty name (no field has rules under it — and it is not the default name)
+var c08CallTags = append(append([]string{}, c08Tags...), "")
+
 // pairs of tag names that a short digest cannot tell apart (FNV-1 / FNV-1a 32, CRC-32 IEEE / Castagnoli, Adler-32,
 // h*31+c, h*33+c, sdbm, the low half and the folded halves of FNV-1a 64; "costarring"/"liquid" is the textbook
 // FNV-1a 32 pair), plus names that differ only in the order or the sum of their letters: a name is its spelling
@@ -208,7 +211,7 @@ func c08Build(rng *rand.Rand, nHot, nCold, rounds, hotBlock int) *c08Hist {
 		if o, ok := ownTags[ti]; ok {
 			return o
 		}
-		return c08Tags
+		return c08CallTags
 	}
 	nHot = len(h.HotTypes)
 	for i := 0; i < nCold; i++ {
@@ -276,10 +279,10 @@ func c08Build(rng *rand.Rand, nHot, nCold, rounds, hotBlock int) *c08Hist {
 				c1 := hotCall(ti)
 				c1.Entry, c1.RM = 0, nil
 				c2 := c1
-				if tg := tagsOf(ti); len(tg) != len(c08Tags) {
+				if tg := tagsOf(ti); len(tg) != len(c08CallTags) {
 					c2.Tag = tg[(indexOf(tg, c1.Tag)+1)%len(tg)] // the twin name
 				} else {
-					c2.Tag = c08Tags[(indexOf(c08Tags, c1.Tag)+1+rng.Intn(len(c08Tags)-1))%len(c08Tags)]
+					c2.Tag = c08CallTags[(indexOf(c08CallTags, c1.Tag)+1+rng.Intn(len(c08CallTags)-1))%len(c08CallTags)]
 				}
 				add(c1)
 				add(c2)
@@ -624,7 +627,7 @@ func parentC08(p *core.ParentCtx) *core.Result {
 			}
 			why := ""
 			agrees := func(tag string) bool {
-				env := &ref.Env{Tag: tag, Unscoped: call.RM}
+				env := &ref.Env{Tag: tag, Unscoped: call.RM, EmptyTag: tag == ""}
 				if call.Fns != nil {
 					env.Local = map[string]ref.FnModel{}
 					for _, n := range call.Fns {
@@ -653,7 +656,7 @@ func parentC08(p *core.ParentCtx) *core.Result {
 			}
 			res.Count("calls_disagreeing_with_reference_for_requested_tag")
 			matched := false
-			for _, other := range []string{"valid", "a", "b", "A", "wechatMiniProgramV1", "wechatMiniProgramV2", "xvalid", "xa", "xb", "xA"} {
+			for _, other := range []string{"valid", "a", "b", "A", "wechatMiniProgramV1", "wechatMiniProgramV2", "xvalid", "xa", "xb", "xA", ""} {
 				if other != call.Tag && agrees(other) {
 					matched = true
 					res.Violate("C08|judged-by-other-tag|all-configurations", fmt.Sprintf("call #%d %s returned %q even with a cache that never remembers anything: that is what the rules under tag %q demand, not those under the requested tag %q (%s); type %s",
